@@ -1,0 +1,28 @@
+//go:build verif
+
+package tubes
+
+// VerifTubeState returns the tube's current lifecycle state (read-only accessor for the harness).
+func (r *Reliable) VerifTubeState() int32 {
+	r.l.Lock()
+	defer r.l.Unlock()
+	return int32(r.tubeState)
+}
+
+// VerifStateNames maps the numeric tube states to their names.
+var VerifStateNames = map[int32]string{
+	int32(created): "created", int32(initiated): "initiated", int32(closeWait): "closeWait",
+	int32(lastAck): "lastAck", int32(finWait1): "finWait1", int32(finWait2): "finWait2",
+	int32(closing): "closing", int32(closed): "closed",
+}
+
+// VerifMuxerState returns "running", "stopping" or "stopped".
+func (m *Muxer) VerifMuxerState() string {
+	switch m.state.Load() {
+	case muxerRunning:
+		return "running"
+	case muxerStopping:
+		return "stopping"
+	}
+	return "stopped"
+}
